@@ -91,6 +91,29 @@ theorem C02_nobody_eligible_released_at_once (s : St) (m r : ModId) (md : Mod) (
   simp [St.emit, hl]
 
 
+/-- the final flush hands over every pending message that was told directly or broadcast (no subscription involved): the
+one-shot rule (D-03c) can only drop messages that reached the module through a one-shot subscription that already fired -/
+theorem C02_flush_keeps_direct (m : ModId) : ∀ (pre : List Msg) (s : St) (x : Msg), x ∈ pre → x.sub = none → x ∈ flushKeep m pre s
+  | [], _, _, h, _ => by cases h
+  | y :: ys, s, x, h, hx => by
+    unfold flushKeep
+    rcases List.mem_cons.mp h with rfl | h
+    · split
+      · split
+        · rename_i he; simp [oneshotExpired, hx] at he
+        · exact List.mem_cons_self
+      · exact List.mem_cons_self
+    · split
+      · split
+        · exact C02_flush_keeps_direct m ys _ x h hx
+        · exact List.mem_cons_of_mem _ (C02_flush_keeps_direct m ys _ x h hx)
+      · exact List.mem_cons_of_mem _ (C02_flush_keeps_direct m ys _ x h hx)
+
+/-- a message that reached the module through a subscription that is not one-shot is never dropped either -/
+theorem C02_flush_keeps_persistent (m : ModId) (x : Msg) (s : St) (md : Mod) (i : SrcId) (src : Src)
+    (hs : x.sub = some i) (hi : s.srcs[i]? = some src) (ho : src.oneshot = false) : oneshotExpired s md x = false := by
+  simp [oneshotExpired, hs, hi, ho]
+
 /-- tie A: the guard prefixes of the entry points this property is about, re-extracted from the source on every run,
 are the ones the model transcribes (`Lm.Inst.CoreTie`) -/
 theorem C02_guards_in_source :
